@@ -138,6 +138,7 @@ class Ctx:
         self.judge_generic = judge_generic
         self.mode = mode
         self.looser = 0.0
+        self.report_kinds = None      # None: report generic Api divergences for every kind (C11); else only these kinds
         self.pars = {}
         for c in base_calls:
             if c['c'] == 'MkPar':
@@ -274,9 +275,25 @@ def judge_state(st, ctx, part):
             if ctx.judge_generic:
                 ident = judge_values(got, pred, ctx, part)
             if ident is None and got is not None and ctx.observer is not None:
-                ctx.observer(got, pred, st.get('pred'), call, sg, prog, ctx, part)
+                from . import apirun
+                ctx.varmap = apirun.varmap(objs)
+                ctx.parobjs = {c['i']: objs[n + 1] for n, c in enumerate(ctx.base_calls) if c['c'] == 'MkPar'}
+                part['_own'] = pkey(calls, len(calls))
+                part['_prefixes'] = [pkey(calls, n) for n in range(1, len(calls))]
+                ctx.cur_objs = objs
+                ctx.cur_heap = heap
+                ctx.cur_preds = st.get('pred')
+                ctx.nb = nb
+                ctx.observer(got, pred, st['pred'][-1], call, sg, prog, ctx, part)
+                part.pop('_own', None)
+                part.pop('_prefixes', None)
+        if ident and ctx.report_kinds is not None and pred['kind'] not in ctx.report_kinds:
+            bump(part, 'api_divergences_left_to_C11')
+            ident_out = None
+        else:
+            ident_out = ident
         if ident:
-            pviolation(part, sg, ident, {'program': prog, 'spec_prediction': summarize(pred), 'detail': part.pop('detail', None)},
+            pviolation(part, sg, ident_out, {'program': prog, 'spec_prediction': summarize(pred), 'detail': part.pop('detail', None)},
                        own=pkey(calls, len(calls)), prefixes=[pkey(calls, n) for n in range(1, len(calls))])
         if len(part['samples']) < 2 and i >= 1:
             part['samples'].append({'program': prog, 'spec': summarize(pred)})
